@@ -164,44 +164,65 @@ def h_mm_commit(env: str, metadata_only_stamp=False):
                     last_updated_ms=h.int("cur_updated_ms"))
         cur_none = z3.Bool("no_current_metadata")
 
+        def hint_accesses(n0):
+            return [e for e in st.events[n0:] if e["op"] in ("exists", "read_file", "read_file_with_etag") and is_hint(e["path"])]
+
         def refresh(I, fv, args, kwargs):
-            st.step(I, "refresh")
-            # the OCC validation read: resolves the pointer NOW
-            g["validated_tag"] = z3.Select(st.tag, HINTZ)
-            g["validated_exists"] = z3.Select(st.ex, HINTZ)
+            """tracking wrapper: the REAL body of refresh() is interpreted (down to the storage actions); the pointer state it
+            validated is the one seen by its last access to the hint"""
+            n0 = len(st.events)
             g["refresh_lock_held"] = lock.held
-            st.log("refresh")
-            if I.ctx.decide(cur_none, "no-current"):
-                return None
-            return cur
+            r = I.run_function(fv, args, kwargs)
+            acc = hint_accesses(n0)
+            if acc:
+                g["validated_tag"], g["validated_exists"] = acc[-1]["tag"], acc[-1]["ex"]
+            g["refresh_result"] = r
+            return r
         h.reg.contracts[f"{MM}:MetadataManager.refresh"] = refresh
+
+        def read_meta(I, fv, args, kwargs):
+            st.log("read_metadata_file", path=pyops.str_z(args[-1]))
+            return cur
+        h.reg.contracts[f"{MM}:MetadataManager._read_metadata_file"] = read_meta
         cvi_version = SInt(c.fresh_int("resolved_version"))
         h.assume(cvi_version.z >= 0)
 
         def cvi(I, fv, args, kwargs):
+            """tracking wrapper around the real _current_version_info (hint if usable, else recovery)"""
             g["cvi_calls"] += 1
-            st.step(I, "current_version_info")
-            st.log("current_version_info")
-            if I.ctx.flip("nothing-resolvable"):
+            r = I.run_function(fv, args, kwargs)
+            g["cvi_last"] = r
+            if r is None:
                 g["cvi_none"] = True
-                return None
-            return (cvi_version, SStr(I.ctx.fresh_str("resolved_name")))
+            return r
         h.reg.contracts[f"{MM}:MetadataManager._current_version_info"] = cvi
+
+        def recover(I, fv, args, kwargs):
+            st.log("recover_version_from_files")
+            if I.ctx.decide(cur_none, "nothing-recoverable"):
+                return None
+            return (cvi_version, SStr(I.ctx.fresh_str("recovered_name")))
+        h.reg.contracts[f"{MM}:MetadataManager._recover_version_from_files"] = recover
 
         def rvh(I, fv, args, kwargs):
             g["rvh_calls"] += 1
-            return None if I.ctx.flip("raw-hint-unusable") else (SInt(I.ctx.fresh_int("raw_version")), SStr(I.ctx.fresh_str("raw_name")))
+            return I.run_function(fv, args, kwargs)
         h.reg.contracts[f"{MM}:MetadataManager._read_version_hint"] = rvh
         parsed = {}
 
         def parse(I, fv, args, kwargs):
             parsed["arg"] = args[-1]
-            if I.ctx.flip("hint-unparseable"):
+            content = pyops.str_z(args[-1])
+            PARSE_OK = z3.Function("ghost.hint_parses", STR, z3.BoolSort())
+            PV = z3.Function("ghost.hint_version", STR, z3.IntSort())
+            PN = z3.Function("ghost.hint_name", STR, STR)
+            if not I.ctx.decide(PARSE_OK(content), "hint-parseable"):
+                parsed.setdefault("all", []).append(None)
                 parsed["r"] = None
                 return None
-            v = SInt(I.ctx.fresh_int("hinted_version"))
-            I.ctx.assume(v.z >= 0)
-            parsed["r"] = (v, SStr(I.ctx.fresh_str("hinted_name")))
+            I.ctx.assume(z3.And(PV(content) >= 0, z3.Not(z3.PrefixOf(z3.StringVal("/"), PN(content)))))
+            parsed["r"] = (SInt(PV(content)), SStr(PN(content)))
+            parsed.setdefault("all", []).append(parsed["r"])
             return parsed["r"]
         h.reg.contracts[f"{MM}:MetadataManager._parse_hint_content"] = parse
         h.reg.contracts[f"{MM}:MetadataManager._append_metadata_log"] = lambda I, fv, a, k: st.log("append_metadata_log", args=a[1:]) and None
@@ -285,13 +306,22 @@ def h_mm_commit(env: str, metadata_only_stamp=False):
                  classes=[("clock-did-not-advance-between-commits", z3.BoolVal(True))])
         # WRITABLE: version arithmetic
         ver = pyops.int_z(names[0][0]) if names else None
-        if cas and parsed.get("r") is not None:
-            h.ensure("WRITABLE:next-version=hinted-version+1", ver == parsed["r"][0].z + 1)
-        elif g.get("cvi_none"):
-            h.ensure("WRITABLE:first-version-only-if-nothing-is-resolvable-or-recoverable", ver == 1)
+        etag_reads = [e for e in st.events if e["op"] == "read_file_with_etag" and is_hint(e["path"]) and e.get("ok")]
+        PARSE_OK = z3.Function("ghost.hint_parses", STR, z3.BoolSort())
+        PV = z3.Function("ghost.hint_version", STR, z3.IntSort())
+        if ver is None:
+            h.fail("WRITABLE:a-version-number-is-assigned")
+        elif cas and etag_reads:
+            ct = etag_reads[-1]["content"]
+            last = g.get("cvi_last")
+            h.ensure("WRITABLE:next-version=version-of-the-hint-read-with-its-etag+1(else-recovery-aware)",
+                     z3.If(PARSE_OK(ct), ver == PV(ct) + 1,
+                           (ver == pyops.int_z(last[0]) + 1) if isinstance(last, tuple) else ver == 1))
         else:
-            h.ensure("WRITABLE:next-version=resolved(recovery-aware)-version+1", z3.BoolVal(g["cvi_calls"] >= 1) if ver is None else
-                     z3.And(z3.BoolVal(g["cvi_calls"] >= 1), ver == cvi_version.z + 1))
+            last = g.get("cvi_last")
+            h.ensure("WRITABLE:version-base-comes-from-the-recovery-aware-resolver", g["cvi_calls"] >= 1)
+            h.ensure("WRITABLE:next-version=resolved-version+1(1-only-if-nothing-is-resolvable)",
+                     (ver == pyops.int_z(last[0]) + 1) if isinstance(last, tuple) else ver == 1)
         h.ensure("WRITABLE:in-memory-version-updated", pyops.bool_z(pyops.py_eq(mm.fields["current_version"], names[0][0])) if names else z3.BoolVal(False))
         h.cover("LIN:ack-reachable")
     return harness
@@ -1028,3 +1058,73 @@ def h_create_snapshot(h: H):
         h.ensure("OUTCOME:returns-the-created-snapshot", len(copies) == 1 and val is copies[0][1].fields["snapshots"].fields["added"][0])
     else:
         h.ensure("NOFLIP:errors-come-from-the-commit", bool(val.fields.get("conflict") or val.fields.get("ambiguous")))
+
+
+# =================================================================================== delete_snapshot
+def h_delete_snapshot(h: H):
+    """DERIVE for metadata-only commits made by SnapshotManager.delete_snapshot: the metadata handed to commit() as *new* is
+    derived (deepcopy + removal) from the very base object read in the same attempt and handed to commit() as *base*."""
+    c = h.ctx
+    st = Store(h)
+    st.install(h.reg)
+    mm = h.obj("MetadataManager", storage=st.obj)
+    sm = h.obj("SnapshotManager", metadata_manager=mm)
+    target = h.int("snapshot_id_to_delete")
+    bases = []
+
+    def refresh(I, fv, args, kwargs):
+        if I.ctx.flip("no-metadata"):
+            bases.append(None)
+            return None
+
+        def mk(I2):
+            if I2.ctx.flip("is-the-target"):
+                return SObj("Snapshot", {"snapshot_id": target})
+            o = SObj("Snapshot", {"snapshot_id": SInt(I2.ctx.fresh_int("sid"))})
+            I2.ctx.assume(o.fields["snapshot_id"].z != target.z)
+            return o
+        b = SObj("TableMetadata", {"snapshots": TheoryObj("symiter", fields={"mk": mk}),
+                                   "snapshot_log": TheoryObj("symiter", fields={"mk": lambda I2: SObj("HistoryEntry", {"snapshot_id": SInt(I2.ctx.fresh_int("hid"))})}),
+                                   "current_snapshot_id": SOpt(I.ctx.fresh_bool("cur_none"), SInt(I.ctx.fresh_int("cur")))}, label=f"base#{len(bases)}")
+        bases.append(b)
+        return b
+    h.reg.contracts[f"{MM}:MetadataManager.refresh"] = refresh
+    copies = []
+
+    def deepcopy(I, a, k):
+        src = a[0]
+        cp_ = SObj("TableMetadata", dict(src.fields), label=f"deepcopy({src.label})")
+        for f in ("snapshots", "snapshot_log"):
+            v = src.fields[f]
+            cp_.fields[f] = TheoryObj("symiter", fields=dict(v.fields))
+        copies.append((src, cp_))
+        return cp_
+    h.reg.modfuncs["copy.deepcopy"] = deepcopy
+    h.reg.contracts[f"{SM}:repoint_parents_to_surviving_ancestors"] = lambda I, fv, a, k: None
+    h.reg.contracts[f"{SM}:SnapshotManager._most_recent_snapshot_id"] = lambda I, fv, a, k: SOpt(I.ctx.fresh_bool("mr_none"), SInt(I.ctx.fresh_int("mr")))
+    commits = []
+
+    def commit(I, fv, args, kwargs):
+        commits.append(args[1:])
+        k = I.ctx.choose(3, "commit-outcome")
+        if k == 1:
+            raise PyRaise(SExc("ConcurrentModificationException", origin="conflict", fields={"conflict": True}))
+        if k == 2:
+            raise PyRaise(SExc("OSError", origin="fault", fields={"fault": True}))
+        return args[2]
+    h.reg.contracts[f"{MM}:MetadataManager.commit"] = commit
+
+    def havoc(I, env, it):
+        env.vars["snapshot_to_remove"] = None
+    h.reg.loops[f"{SM}:SnapshotManager.delete_snapshot"] = {
+        "*": LoopSpec(invariant=lambda I, e, it: [], havoc=havoc, name="find", skip=["snapshot_to_remove", "i", "snapshot"])}
+    out, val = h.run(f"{SM}:SnapshotManager.delete_snapshot", [sm, target])
+    for (b, n) in commits:
+        srcs = [s_ for (s_, cpy) in copies if cpy is n]
+        h.ensure("DERIVE:delete_snapshot-commits-(base, copy-derived-from-THAT-base)", len(srcs) == 1 and srcs[0] is b and b is not None)
+        h.ensure("DERIVE:the-base-is-a-read-of-this-attempt", any(b is x for x in bases))
+    h.ensure("RETRY:delete_snapshot-at-most-one-commit-per-base-read", len(commits) <= len([b for b in bases if b is not None]))
+    if out == "ok" and val is True:
+        h.ensure("OUTCOME:True-only-after-a-successful-commit", len(commits) >= 1)
+    if out == "ok" and val is False:
+        h.ensure("OUTCOME:False-means-nothing-committed", len(commits) == 0)
